@@ -407,7 +407,10 @@ func genDeepGrammar(r *rng) toolInput {
 // genLRRecovery draws small left-recursive grammars whose recursive reference
 // sits under a recovery expression, a label, a group or a predicate prefix:
 // whatever walks to "the leftmost reference" has to walk through those.
-func genLRRecovery(r *rng) toolInput {
+func genLRRecovery(r *rng) toolInput { return genLRRecoveryN(r, -1) }
+
+// genLRRecoveryN takes shape i (every shape once when i counts up), or a drawn one.
+func genLRRecoveryN(r *rng, i int) toolInput {
 	shapes := []string{
 		"E <- E '+' T / T //{e} X\nT <- [0-9]+\nX <- .\n",
 		"E <- ( E '+' T //{e} X ) / T\nT <- [0-9]+\nX <- .\n",
@@ -418,13 +421,72 @@ func genLRRecovery(r *rng) toolInput {
 		"E <- 'a'? E '+' T / T\nT <- [0-9]+\n",
 		"E <- ( E '+' T //{e} X //{f} X ) / T %{e}\nT <- [0-9]+\nX <- .\n",
 		"S <- E !.\nE <- ( E '+' T / T ) //{e} ( X //{f} E )\nT <- [0-9]+ / %{f}\nX <- .\n",
+		// rule names that are prefixes of each other followed by digits, with code
+		// blocks at every expression index: generated identifiers built from
+		// name + index meet (onA + 11 = onA1 + 1)
+		"A <- " + strings.Repeat("&{ return true, nil } ", 14) + "'a' { return nil, nil }\nA1 <- 'b' { return nil, nil } / &{ return true, nil } 'c'\nA11 <- 'c' { return nil, nil }\nA2 <- #{ return nil } !{ return false, nil } 'd' { return nil, nil }\nA12 <- 'e' { return nil, nil }\n",
 	}
-	g := shapes[r.intn(len(shapes))]
-	if r.chance(1, 2) {
+	if i < 0 || i >= len(shapes) {
+		i = r.intn(len(shapes))
+	}
+	g := shapes[i]
+	if r.chance(1, 2) || strings.Contains(g, "{ return") {
 		g = "{\npackage gen\n}\n" + g
 	}
-	if r.chance(1, 3) {
+	if r.chance(1, 3) && !strings.Contains(g, "A11") {
 		g = "Top <- 'k' E?\n" + g
 	}
-	return toolInput{Name: "lrrec", Class: "genlr", Grammar: []byte(g), Rules: []string{"E", "T"}}
+	name, rules := "lrrec", []string{"E", "T"}
+	if strings.Contains(g, "A11") {
+		name, rules = "digitnames", []string{"A", "A1"}
+	}
+	return toolInput{Name: name, Class: "genlr", Grammar: []byte(g), Rules: rules}
+}
+
+// genOptShape draws grammars whose rules only become literals (or classes)
+// after another rule was inlined into them, and which are used from several
+// rules directly before a literal: the order in which the optimizer revisits
+// the users decides how the merged terminals look.
+func genOptShape(r *rng) toolInput {
+	var b strings.Builder
+	if r.chance(1, 2) {
+		b.WriteString("{\npackage gen\n}\n")
+	}
+	words := []string{"alpha", "beta", "gamma", "delta", "eps", "zeta", "eta"}
+	n := 2 + r.intn(5)
+	var names []string
+	for i := 0; i < n; i++ {
+		names = append(names, fmt.Sprintf("K%d", i+1))
+	}
+	switch r.intn(3) {
+	case 0:
+		fmt.Fprintf(&b, "Start <- v:( %s ) !.\n", strings.Join(names, " / "))
+	case 1:
+		fmt.Fprintf(&b, "Start <- ( %s )+\n", strings.Join(names, " / "))
+	default:
+		fmt.Fprintf(&b, "Start <- %s\n", strings.Join(names, " "))
+	}
+	names = names[:0]
+	for i := 0; i < n; i++ {
+		nm := fmt.Sprintf("K%d", i+1)
+		names = append(names, nm)
+		w := words[i%len(words)]
+		switch r.intn(4) {
+		case 0:
+			fmt.Fprintf(&b, "%s <- Sigil %q / Sigil %q\n", nm, w, w+"x")
+		case 1:
+			fmt.Fprintf(&b, "%s <- Sigil [%s] Sigil\n", nm, w[:2])
+		default:
+			fmt.Fprintf(&b, "%s <- Sigil %q\n", nm, w)
+		}
+	}
+	depth := 1 + r.intn(3)
+	prev := "Sigil"
+	for d := 0; d < depth; d++ {
+		next := fmt.Sprintf("At%d", d)
+		fmt.Fprintf(&b, "%s <- %s\n", prev, next)
+		prev = next
+	}
+	fmt.Fprintf(&b, "%s <- %s\n", prev, r.pick([]string{"\"@\"", "'#'", "[@#]", "\"@\"i", "\"\""}))
+	return toolInput{Name: "optshape", Class: "gen", Grammar: []byte(b.String()), Rules: names}
 }
